@@ -519,6 +519,18 @@ func (x *Exec) runBlock(s *State, b *ssa.BasicBlock, pred *ssa.BasicBlock, k con
 				fr.vars[phi.Comment] = val
 			}
 		}
+		for _, in := range b.Instrs {
+			if nx, ok := in.(*ssa.Next); ok && !nx.IsString {
+				if rg, ok := nx.Iter.(*ssa.Range); ok {
+					if _, has := fr.vars["iter$"+rg.Name()]; has {
+						c := Var(x.eng.fresh("iter$"+rg.Name()), SInt)
+						s.assume(ILe(IntLit(0), c))
+						fr.vars["iter$"+rg.Name()] = tv(c, types.Typ[types.Int])
+						fr.vars[fmt.Sprintf("iter%d", li.ordinal)] = tv(c, types.Typ[types.Int])
+					}
+				}
+			}
+		}
 		keys, all := x.modifiedHeaps(fr.fn, li.body)
 		if all {
 			for k := range x.heapSorts {
@@ -1099,6 +1111,12 @@ func (x *Exec) step(s *State, fr *Frame, in ssa.Instruction) error {
 			return err
 		}
 		fr.vals[in] = Val{T: v.T, GoT: in.X.Type()}
+		if mt, isMap := in.X.Type().Underlying().(*types.Map); isMap {
+			// ghost iteration counter: number of successful Next calls on this iterator so far
+			_, _, ln := x.mapParts(s, mt, v.T)
+			fr.vars["iter$"+in.Name()] = tv(IntLit(0), types.Typ[types.Int])
+			fr.vars["iterlen$"+in.Name()] = tv(x.name(s, "iterlen$"+in.Name(), ln), types.Typ[types.Int])
+		}
 		return nil
 	case *ssa.Next:
 		return x.next(s, fr, in)
@@ -1824,6 +1842,28 @@ func (x *Exec) next(s *State, fr *Frame, in *ssa.Next) error {
 	k := Var(x.eng.fresh("next$k$"+in.Name()), x.sortOf(mt.Key()))
 	x.assumeTyped(s, k, mt.Key())
 	s.assume(Implies(ok, And(Not(Eq(it.T, IntLit(0))), Select(has, k), ILt(IntLit(0), ln))))
+	if rg, isR := in.Iter.(*ssa.Range); isR {
+		if cnt, hasC := fr.vars["iter$"+rg.Name()]; hasC {
+			// the iteration visits each key once: while the map is not modified inside the loop,
+			// Next succeeds exactly len(m) times
+			stable := true
+			if li := x.loopsOf(fr.fn)[in.Block()]; li != nil {
+				hk, vk, lk := x.mapKeys(mt)
+				keys, all := x.modifiedHeaps(fr.fn, li.body)
+				if all || keys[hk] || keys[vk] || keys[lk] {
+					stable = false
+				}
+			}
+			if stable {
+				s.assume(Eq(ok, ILt(cnt.T, fr.vars["iterlen$"+rg.Name()].T)))
+			}
+			nc := x.name(s, "iter$"+rg.Name(), Ite(ok, IAdd(cnt.T, IntLit(1)), cnt.T))
+			fr.vars["iter$"+rg.Name()] = tv(nc, types.Typ[types.Int])
+			if li := x.loopsOf(fr.fn)[in.Block()]; li != nil {
+				fr.vars[fmt.Sprintf("iter%d", li.ordinal)] = tv(nc, types.Typ[types.Int])
+			}
+		}
+	}
 	v := x.name(s, "next$v$"+in.Name(), Select(val, k))
 	x.assumeTyped(s, v, mt.Elem())
 	fr.vals[in] = Val{Tup: []Val{tv(ok, types.Typ[types.Bool]), tv(k, mt.Key()), tv(v, mt.Elem())}}
